@@ -29,7 +29,7 @@ use arrow_buffer::{
     ScalarBuffer, ToByteSlice,
 };
 use arrow_data::transform::MutableArrayData;
-use arrow_data::{ArrayData, ByteView};
+use arrow_data::{ArrayData, ByteView, MAX_INLINE_VIEW_LEN};
 use arrow_schema::{ArrowError, DataType};
 use std::fmt::{Debug, Formatter};
 use std::hash::Hash;
@@ -756,7 +756,11 @@ impl<T: ByteViewType> ByteViewScalarImpl<T> {
                 // If the falsy buffers are empty, we can use the falsy view as it is, because the value
                 // is completely inlined. Otherwise, we have non-inlined values in the buffer, and we need
                 // to recalculate the falsy view
-                let view_falsy = if falsy_buffers.is_empty() {
+                // The same holds for an inlined value of an array that happens to own data
+                // buffers (e.g. a slice of a larger array): an inline view has no buffer
+                // index, those bytes are part of the value
+                let falsy_is_inline = ByteView::from(falsy_view).length <= MAX_INLINE_VIEW_LEN;
+                let view_falsy = if falsy_buffers.is_empty() || falsy_is_inline {
                     falsy_view
                 } else {
                     let byte_view_falsy = ByteView::from(falsy_view);
@@ -1579,5 +1583,26 @@ mod test {
             Some("another longer than 12 bytes"),
         ]);
         assert_eq!(actual, &expected);
+    }
+
+    #[test]
+    fn test_zip_scalar_inline_view_of_array_with_data_buffers() {
+        // both scalars are one-row slices of arrays that own a data buffer; the falsy
+        // value itself is inlined (<= 12 bytes) and must be copied verbatim
+        let truthy = BinaryViewArray::from(vec![&b"a long truthy value.........."[..]]);
+        let falsy_value: &[u8] = &[1, 2, 3, 4, 0, 6, 7, 8, 9, 10, 11, 12];
+        let falsy =
+            BinaryViewArray::from(vec![&b"another long value..........."[..], falsy_value]);
+        let falsy = falsy.slice(1, 1);
+        assert!(!falsy.data_buffers().is_empty());
+
+        let mask = BooleanArray::from(vec![true, false, true, false]);
+        let result = zip(&mask, &Scalar::new(truthy.clone()), &Scalar::new(falsy)).unwrap();
+        result.to_data().validate_full().unwrap();
+        let result = result.as_binary_view();
+        assert_eq!(result.value(0), truthy.value(0));
+        assert_eq!(result.value(1), falsy_value);
+        assert_eq!(result.value(2), truthy.value(0));
+        assert_eq!(result.value(3), falsy_value);
     }
 }
